@@ -71,6 +71,12 @@ func (fi *FuncInfo) dominates(a, b ssa.Instruction) bool {
 // reachAvoiding: can control flow from the function entry reach instruction `to`
 // without executing any of the `avoid` instructions?
 func (fi *FuncInfo) entryReachesAvoiding(to ssa.Instruction, avoid []ssa.Instruction) bool {
+	return fi.blockReachesAvoiding(fi.fn.Blocks[0], to, avoid)
+}
+
+// blockReachesAvoiding: can control flow from the start of block `from` reach
+// instruction `to` without executing any of the `avoid` instructions?
+func (fi *FuncInfo) blockReachesAvoiding(from *ssa.BasicBlock, to ssa.Instruction, avoid []ssa.Instruction) bool {
 	avoidIn := map[*ssa.BasicBlock]int{} // block -> smallest index of an avoided instr
 	for _, a := range avoid {
 		b := a.Block()
@@ -81,7 +87,7 @@ func (fi *FuncInfo) entryReachesAvoiding(to ssa.Instruction, avoid []ssa.Instruc
 	tb := to.Block()
 	seen := map[*ssa.BasicBlock]bool{}
 	var stack []*ssa.BasicBlock
-	stack = append(stack, fi.fn.Blocks[0])
+	stack = append(stack, from)
 	for len(stack) > 0 {
 		b := stack[len(stack)-1]
 		stack = stack[:len(stack)-1]
